@@ -24,6 +24,7 @@ import (
 	codectypes "github.com/cosmos/cosmos-sdk/codec/types"
 	"github.com/cosmos/cosmos-sdk/runtime"
 	sdk "github.com/cosmos/cosmos-sdk/types"
+	"github.com/cosmos/cosmos-sdk/types/module"
 	authtypes "github.com/cosmos/cosmos-sdk/x/auth/types"
 	"github.com/cosmos/gogoproto/proto"
 
@@ -231,6 +232,58 @@ type Instance struct {
 	qn      uint64
 	notes   []string
 	discard bool // simulate: never write the branch back
+	Mod     cctp.AppModule
+	gqr     *baseapp.GRPCQueryRouter
+}
+
+// wire registers the module's services the way an application does: through AppModule.RegisterServices on a
+// configurator over a real message router and a real gRPC query router.
+func (in *Instance) wire() {
+	in.msr = baseapp.NewMsgServiceRouter()
+	in.msr.SetInterfaceRegistry(in.reg)
+	in.gqr = baseapp.NewGRPCQueryRouter()
+	in.gqr.SetInterfaceRegistry(in.reg)
+	in.Mod = cctp.NewAppModule(in.K)
+	in.Mod.RegisterServices(module.NewConfigurator(in.cdc, in.msr, in.gqr))
+}
+
+// genesisJSON: the module-level JSON form of a genesis state, when JSON carries it faithfully (hostile
+// in-memory values such as nil amounts have no JSON form; those cases use the package-level functions).
+func (in *Instance) genesisJSON(gs *types.GenesisState) (bz []byte, ok bool) {
+	defer func() {
+		if r := recover(); r != nil {
+			bz, ok = nil, false
+		}
+	}()
+	b1, err := gs.Marshal()
+	if err != nil {
+		return nil, false
+	}
+	js := in.cdc.MustMarshalJSON(gs)
+	var back types.GenesisState
+	in.cdc.MustUnmarshalJSON(js, &back)
+	b2, err := back.Marshal()
+	if err != nil || string(b1) != string(b2) {
+		return nil, false
+	}
+	return js, true
+}
+
+// InitGenesisReal initialises through AppModule.InitGenesis (JSON) when possible, else through cctp.InitGenesis.
+func (in *Instance) InitGenesisReal(gs types.GenesisState) {
+	if js, ok := in.genesisJSON(&gs); ok {
+		in.Mod.InitGenesis(in.ctx, in.cdc, js)
+		return
+	}
+	cctp.InitGenesis(in.ctx, in.K, gs)
+}
+
+// ExportGenesisReal exports through AppModule.ExportGenesis (JSON) and decodes the result.
+func (in *Instance) ExportGenesisReal() *types.GenesisState {
+	js := in.Mod.ExportGenesis(in.ctx, in.cdc)
+	var out types.GenesisState
+	in.cdc.MustUnmarshalJSON(js, &out)
+	return &out
 }
 
 var sharedReg codectypes.InterfaceRegistry
@@ -256,9 +309,7 @@ func NewInstance(t *SymTab, iavl bool) *Instance {
 	in.L = &Ledger{key: in.ledKey, mintDenom: t.MintDenom, cctpKey: in.cctpKey}
 	svc := recService{inner: runtime.NewKVStoreService(in.cctpKey), rec: &in.writes, on: &in.recOn}
 	in.K = keeper.NewKeeper(in.cdc, logger, svc, in.L, in.L)
-	in.msr = baseapp.NewMsgServiceRouter()
-	in.msr.SetInterfaceRegistry(in.reg)
-	types.RegisterMsgServer(in.msr, keeper.NewMsgServerImpl(in.K))
+	in.wire()
 	in.ctx = sdk.NewContext(in.ms, cmtproto.Header{Height: 1}, false, logger)
 	in.height = 1
 	return in
@@ -474,7 +525,7 @@ func (in *Instance) GenesisFromState(s M) types.GenesisState {
 // SetPendingOwner, the one slot genesis cannot carry) and seeds the ledger double.
 func (in *Instance) Materialise(s M) {
 	gs := in.GenesisFromState(s)
-	cctp.InitGenesis(in.ctx, in.K, gs)
+	in.InitGenesisReal(gs)
 	if p := gets(s, "pending"); p != "none" {
 		in.K.SetPendingOwner(in.ctx, in.T.AddrString(p))
 	}
@@ -505,9 +556,7 @@ func (in *Instance) RestartKeeper() {
 	logger := log.NewNopLogger()
 	svc := recService{inner: runtime.NewKVStoreService(in.cctpKey), rec: &in.writes, on: &in.recOn}
 	in.K = keeper.NewKeeper(in.cdc, logger, svc, in.L, in.L)
-	in.msr = baseapp.NewMsgServiceRouter()
-	in.msr.SetInterfaceRegistry(in.reg)
-	types.RegisterMsgServer(in.msr, keeper.NewMsgServerImpl(in.K))
+	in.wire()
 }
 
 // Reset gives the instance a fresh, empty multistore (keeper, router and codec are reused).
